@@ -44,6 +44,7 @@ type c03Case struct {
 	Paren2 []int `json:"paren2,omitempty"` // a second group [i, j], disjoint from or nested inside the first
 	Neg    []int `json:"neg"`              // negated operand indices (never a regex operand)
 	Tight  bool  `json:"tight,omitempty"`  // symbol operators written without blanks around them (a<-b, a*(b+c))
+	Same   bool  `json:"same,omitempty"`   // every operand is called a (terms of a chain may repeat)
 	Lit    []int `json:"lit,omitempty"`    // operands written as integer literals (a negated one is the literal -1)
 }
 
@@ -133,8 +134,12 @@ func c03build(c c03Case) (text string, toks []c03tok) {
 			e = &influxql.IntegerLiteral{Val: v}
 			t = fmt.Sprint(v)
 		} else {
-			e = &influxql.VarRef{Val: c03operandName(i)}
-			t = c03operandName(i)
+			nm := c03operandName(i)
+			if c.Same {
+				nm = "a"
+			}
+			e = &influxql.VarRef{Val: nm}
+			t = nm
 			if neg[i] {
 				e = &influxql.BinaryExpr{Op: influxql.MUL, LHS: &influxql.IntegerLiteral{Val: -1}, RHS: e}
 				t = "-" + t
@@ -326,6 +331,12 @@ func c03run(r *ev.Run) {
 		if !c.Tight && len(c.Ops) <= tightK {
 			t := c
 			t.Tight = true
+			defer run(t)
+		}
+		if !c.Same && !c.Tight && len(c.Lit) == 0 && len(c.Ops) <= 3 {
+			// the same chain with every operand called a: repeated terms are terms (a = a AND a = a has three operators)
+			t := c
+			t.Same = true
 			defer run(t)
 		}
 		n := r.Eval()
